@@ -362,6 +362,49 @@ func (m *MW) StepCacheReplay() {
 	m.rc.Nontrivial = true
 }
 
+// StepCacheSplitReplay: a request whose bytes are distributed differently over URL and body than
+// those of a cached request (same method, same concatenation) is another request: it must be
+// executed on its merits, not answered from the cache. The first request carries a second JSON
+// document behind its body (the decoder stops after the first one); the near-replay moves the first
+// document into the query string and sends the second one as its body.
+func (m *MW) StepCacheSplitReplay() {
+	W := m.W
+	mint := "A"
+	ks := W.ActiveKeyset(mint)
+	m.rc.Op("cache-split-replay")
+	ins := m.pickProofs(mint, 1)
+	fee := m.feeFor(mint, ins)
+	if ins == nil || SumH(ins) <= fee {
+		return
+	}
+	outs := W.NewOutputs(Split(SumH(ins)-fee), ks.ID)
+	j1 := mustJSON(map[string]any{"inputs": proofsJ(ins), "outputs": outsJ(outs)})
+	j2 := []byte(`{"inputs":[],"outputs":[]}`)
+	var first, second *Resp
+	m.rc.S.BeginEpisode()
+	m.rc.S.Run1(m.name("split0"), W.Ext, func() {
+		first = m.User.do("POST", mint, "/v1/swap?r=1", append(append([]byte{}, j1...), j2...), "application/json")
+		if first.OK() {
+			sigs, _ := first.Body["signatures"].([]any)
+			m.markSpent(mint, ins)
+			m.User.Purse[mint] = append(m.User.Purse[mint], W.Unblind(mint, outs, sigs)...)
+		}
+	})
+	if first == nil || !first.OK() {
+		m.rc.S.Probe("c20_split_first_refused")
+		return
+	}
+	m.rc.S.BeginEpisode()
+	m.rc.S.Run1(m.name("split1"), W.Ext, func() {
+		second = m.Atk.do("POST", mint, "/v1/swap?r=1"+string(j1), j2, "application/json")
+	})
+	m.rc.S.Probe("c20_cache_split_replay")
+	if second != nil && second.Err == nil && second.Status == 200 && bytes.Equal(second.Raw, first.Raw) {
+		W.Book.Violate("C20.cache_leak", "bytes moved between URL and body", "a request with another URL and another body (the cached request's bytes distributed differently) was answered with the cached response of /v1/swap")
+	}
+	m.rc.Nontrivial = true
+}
+
 func mustJSON(v any) []byte {
 	r := &Resp{}
 	_ = r
@@ -566,7 +609,11 @@ func runC20(rc *RunCtx) {
 			}
 			m.StepCause(cause)
 		case cacheOnly:
-			m.StepCacheReplay()
+			if rc.P("split", 0) == 1 || (i%3 == 2 && rc.P("cacherot", 0) == 0) {
+				m.StepCacheSplitReplay()
+			} else {
+				m.StepCacheReplay()
+			}
 		case injOnly:
 			m.StepInjectedFailure()
 		default:
@@ -580,7 +627,11 @@ func runC20(rc *RunCtx) {
 			case 1:
 				m.StepCause(T.Choose("cause", len(c20Causes)))
 			case 2:
-				m.StepCacheReplay()
+				if T.Chance("cache.split", 1, 5) {
+					m.StepCacheSplitReplay()
+				} else {
+					m.StepCacheReplay()
+				}
 			case 3:
 				m.StepInjectedFailure()
 			}
